@@ -232,6 +232,22 @@ Section Unserialize.
     end.
 End Unserialize.
 
+(* ---------- a serializer object over time ----------
+   Serializer.unserialize reads nothing that an earlier call wrote (the statistics counters are write-only for
+   it), and the object serializers are meant to be functions of the octets they are handed: [decode].  A call
+   history on one object -- or on several objects of one process -- is therefore answered call by call.  The C03
+   correspondence run on histories is what ties this to the code (e.g. a shared streaming decoder would break it). *)
+Section History.
+  Variable uri_ok : uri_fl -> str -> bool.
+  Variable custom_ok : str -> bool.
+  Variable decode : ser -> list N -> option (list value).
+  Definition unserialize_octets (s : ser) (isBinary : option bool) (p : list N) : res (list (Z * msg)) :=
+    unserialize_model uri_ok custom_ok s isBinary (decode s p).
+  (* one call = (serializer, isBinary, octets) *)
+  Definition run_history (calls : list (ser * option bool * list N)) : list (res (list (Z * msg))) :=
+    map (fun c => unserialize_octets (fst (fst c)) (snd (fst c)) (snd c)) calls.
+End History.
+
 (* ---------- batching ---------- *)
 Open Scope N_scope.
 (* JsonObjectSerializer: serialize appends b"\x18"; unserialize: payload.split(b"\x18")[:-1], error if empty *)
